@@ -122,6 +122,7 @@ class C07(InputProp):
             fams = [DomainSpace(G.DocSpace(2, variants=["plain", "html", "tight"]), "g2"), DomainSpace(G.DocSpace(3, names=CORE, variants=["plain"]), "g3core")]
         else:
             fams = [DomainSpace(G.DocSpace(2), "g2"), DomainSpace(G.DocSpace(3, variants=["plain", "tight"]), "g3")]
+        fams.append(DomainSpace(G.HeadingSpace(3 if tier == "quick" else 4), "headings"))
         # histories of ONE cleaner: the PDF writer keeps a single TreeCleaner and cleans article after article with it, and a
         # Book is cleaned child by child in one call.  Every ordered pair of one-block articles x both ways of reuse.
         seqnames = [n for n in (G.LIBNAMES if tier != "quick" else SEQ_BLOCKS) if in_domain((n,))]
